@@ -156,7 +156,10 @@ def check_history(hist, steps, obs_table, lenient_labels=True):
         if want == "error":
             tag = "%s(invalid)" % call["op"] if shape != "no-graph" else tag
         alt = nstate(h["alt"]) if "alt" in h else after
-        is_open = alt != after          # a failed batch with valid elements: nothing stored, or the valid elements stored
+        # a failed batch with valid elements: nothing stored, or the valid elements stored - also when storing them changes
+        # nothing that can be observed (the valid element equals the stored one): the timestamp may then move or not
+        is_open = alt != after or (want == "error" and call["op"] in ("AddVertex", "AddEdge") and len(call.get("elems", [])) > 1
+                                   and call.get("g") in before)
         verdict = None
         for cand in ([after, alt] if is_open else [after]):
             verdict = _aspects(cand, st, call, obs_table, mask)
